@@ -88,11 +88,28 @@ def state(rng, dims, kind, cplx):
         return t
 
 
+def long_step(rng, idx):
+    """micro systems of 64 and more unknowns (maximal ranks on [4,4,4], [2,4,4,2], [2]*6) with long steps (h ||H|| = 20..100): the
+    local propagators are exponentials of large arguments - the statement holds for all step sizes"""
+    dims = [[4, 4, 4], [2, 4, 4, 2], [2, 2, 2, 2, 2, 2], [3, 4, 4]][int(rng.integers(0, 4))]
+    cplx = bool(rng.integers(0, 2))
+    with probe.oracle():
+        H = gen.hermitian_tt(rng, dims, int(rng.integers(1, 3)), cplx)
+        H = (1.0 / max(float(np.linalg.norm(mat(dense(H)), 2)), 1e-12)) * H
+    return dims, H, cplx, float(rng.uniform(20, 100))
+
+
 def w_tdvp1(ctx, rng, idx):
     dims, H, cplx = problem(rng)
     kind = ['maximal', 'rank1', 'intermediate'][int(rng.integers(0, 3))]
+    hl = None
+    if idx % 40 == 7:
+        dims, H, cplx, hl = long_step(rng, idx)
+        kind = 'maximal'
     x0 = state(rng, dims, kind, cplx or rng.random() < 0.5)
     h, N = gen.as_float(rng, float(rng.uniform(0.01, 0.3))), gen.as_int(rng, int(rng.integers(1, 4)))
+    if hl is not None:
+        h, N = hl, int(rng.integers(1, 3))
     H, h, usc = units(rng, H, h)
     nz = 0 if rng.random() < 0.8 else 2
     ctx.describe({'op': 'tdvp1site', 'dims': dims, 'complex': cplx, 'ranks': x0.ranks, 'kind': kind, 'h': h, 'steps': N, 'normalize': nz})
@@ -109,8 +126,14 @@ def w_tdvp1(ctx, rng, idx):
 def w_tdvp2(ctx, rng, idx):
     dims, H, cplx = problem(rng)
     kind = ['maximal', 'maximal', 'intermediate'][int(rng.integers(0, 3))]
+    hl = None
+    if idx % 40 == 11:
+        dims, H, cplx, hl = long_step(rng, idx)
+        kind = 'maximal'
     x0 = state(rng, dims, kind, cplx or rng.random() < 0.5)
     h, N = float(rng.uniform(0.01, 0.3)), int(rng.integers(1, 4))
+    if hl is not None:
+        h, N = hl, int(rng.integers(1, 3))
     H, h, usc = units(rng, H, h)
     thr = [0, 1e-12][int(rng.integers(0, 2))]
     tight = max(gen.max_ranks(dims, [1] * len(dims)))  # (the largest rank these mode sizes admit: a bound that is tight but cuts nothing)
